@@ -28,6 +28,7 @@ def correspond(rep, tier, seed):
     corpus = control.corpus_scenarios()
     scs, failing = control.correspond_control(rep, tier, seed, extra=corpus)
     n_viol = control.oracle_control(rep, scs, "C14")
+    failing = control.split_assert_failures(rep, scs, failing)
     if failing and n_viol == 0:
         if not search(rep, tier, seed, reason="correspondence"):
             control.report_disagreements(rep, scs, failing, theorems=THEOREMS)
